@@ -137,7 +137,10 @@ func c20ValueInSchema() []c20input {
 		{"oneOf": gen.Arr()}, {"anyOf": gen.Arr()}, {"allOf": gen.Arr()}, {"type": "integer", "format": "int32"}, {"type": "integer", "format": "int64"},
 		{"type": "string", "format": "date"}, {"format": "date"}, {"type": "string", "format": "email"}, {"type": "string", "format": "uuid"}, {"type": "number", "format": "float"}, {"type": "number", "format": "double"},
 	}
-	values := []any{nil, 0.0, -0.0, 1.0, -1.0, 0.5, 1e308, -1e308, 1e-320, 2147483648.0, 9.3e18, "", "a", "2020-01-01T00:00:00Z", "=", true, gen.Arr(), gen.Arr(0.0, 0.0), gen.Arr(nil), gen.S{}, gen.S{"a": 0.0}, gen.S{"k": "x"}, gen.S{"a": gen.S{"a": 0.0}}}
+	values := []any{nil, 0.0, -0.0, 1.0, -1.0, 0.5, 1e308, -1e308, 1e-320, 2147483648.0, 9.3e18, "", "a", "2020-01-01T00:00:00Z", "=", true, gen.Arr(), gen.Arr(0.0, 0.0), gen.Arr(nil), gen.S{}, gen.S{"a": 0.0}, gen.S{"k": "x"}, gen.S{"a": gen.S{"a": 0.0}},
+		// lists whose members are of several kinds, the first a scalar, a later one a list or an object
+		gen.Arr("a", gen.Arr("b")), gen.Arr(1.0, gen.S{"k": 1.0}), gen.Arr(gen.Arr(1.0), gen.Arr(1.0)), gen.Arr(gen.S{"a": 1.0}, gen.S{"a": 1.0}), gen.Arr(1.0, "1", true, nil, gen.Arr(1.0), gen.S{"a": 1.0}), gen.Arr(nil, gen.Arr(nil), nil)}
+	schemas = append(schemas, gen.S{"type": "array", "uniqueItems": true}, gen.S{"uniqueItems": true}, gen.S{"type": "array", "uniqueItems": true, "items": gen.S{}}, gen.S{"type": "array", "uniqueItems": true, "items": gen.S{"oneOf": gen.Arr(gen.S{"type": "string"}, gen.S{"type": "array"})}})
 	for si, s := range schemas {
 		for vi, v := range values {
 			for _, where := range []string{"default", "example", "enum", "enum-mixed"} {
